@@ -21,7 +21,7 @@ BUDGET = {
     "quick": {"runs": 4500, "time_cap": 150, "determinism_sample": 40, "shrink_runs": 300},
     "thorough": {"runs": 80000, "time_cap": 1500, "determinism_sample": 300, "shrink_runs": 600},
 }
-BOUNDS = "<=14 operations per process, <=2 injected faults per process (one per faulted operation), fault position = 1st..3rd matching system call of the operation; fixtures <=40 kB"
+BOUNDS = "quick: <=14 operations and <=2 injected faults per process (thorough: <=28 operations, <=4 faults) (one per faulted operation), fault position = 1st..3rd matching system call of the operation; fixtures <=40 kB"
 RULE = ("runs 0..S-1 are a systematic block: every listed builtin x every applicable real failing target, and every "
         "builtin x injected errno (EIO, ENOSPC, partial write then ENOSPC, EPIPE, EACCES, EMFILE, EINTR, plain short write) "
         "x call position (1st/2nd) x handle position (fresh / after a healthy operation); later runs are seeded random "
@@ -236,14 +236,14 @@ def systematic():
     return _SYS
 
 
-def gen_random(rng):
+def gen_random(rng, deep=False):
     fix = _fix(rng)
     stdin = rng.weighted([(40, "text"), (30, "pcap"), (15, "garbage"), (15, "empty")])
     ops = []
     live = {"stdin": "stdin", "stdout": "stdout"}   # var -> kind (fault-free expectation)
     nvar = 0
     nfresh = 0
-    nops = rng.range(3, 14)
+    nops = rng.range(3, 28 if deep else 14)
     stdin_is_pcap_handle = False
     for _ in range(nops):
         users = [v for v, k in live.items() if k != "err"]
@@ -323,7 +323,7 @@ def gen_random(rng):
         elif k == "pcapw":
             ops.append({"op": "pcap_write", "h": v, "pkt": 1 if rng.chance(45) else 0})
     # faults: 0-2 faulted operations, placed where they can fire
-    nf = rng.weighted([(10, 0), (60, 1), (30, 2)])
+    nf = rng.weighted([(10, 0), (60, 1), (30, 2), (15 if deep else 0, 3), (8 if deep else 0, 4)])
     idxs = list(range(len(ops)))
     rng.shuffle(idxs)
     placed = 0
@@ -347,7 +347,7 @@ def generate(rng, tier, idx):
     cases = systematic()
     if idx < len(cases):
         return dict(cases[idx])
-    return gen_random(rng)
+    return gen_random(rng, deep=(tier == "thorough"))
 
 
 # ---------------------------------------------------------------------------
